@@ -2,6 +2,9 @@
 from facts import Sym, path_is, strip_generics, strip_sym, sym_arg, sym_calls, sym_is_call, sym_str, sym_through, sym_walk
 from props.common import RECORDER_METHODS, arg_syms, callee_method_name, crate_stats, gates, in_cycle, kind_consistent, need, nonforeign_calls, one_method, recorder_forward, recorder_impls, siblings_isomorphic
 
+# helper functions named by the rules; Labels::{extend, extend_from_labels, extend_from_labels_overwrite}, the Visit
+# helpers and the parts enhance_key may be split into are spliced into their callers
+KEEP = ["from_record", "enhance_key", "with_labels", "get_pool"]
 TITLE = "C17 span fields become labels with metric > inner span > outer span precedence."
 CONFIGS = ["test-profile"]
 TC = "metrics_tracing_context"
@@ -22,7 +25,7 @@ def run(ctx):
     chk = ctx.check
     t = ctx.crate("metrics_tracing_context")
     crate_stats(chk, t)
-    chk.rule("C17.a", "TBL span bookkeeping: on_new_span reads the span's own fields, then merges its REGISTERED parent's labels through the non-overwriting extension; on_record merges through the overwriting one; extend visits every entry of the other map; every Visit::record_* inserts under field.name() the value formatted at its own type", floor=10)
+    chk.rule("C17.a", "TBL span bookkeeping: on_new_span reads the span's own fields, then merges its REGISTERED parent's labels through the non-overwriting extension; on_record merges through the overwriting one; extend visits every entry of the other map; every Visit::record_* inserts under field.name() the value formatted at its own type", floor=9)
     chk.rule("C17.b", "ORD enhance_key: the filter sees each span label with its real name and value and is applied to span labels only, before the metric's own labels are inserted (overwriting); the key is rebuilt from the map (unique names); None when there is no current span, no layer or no labels", floor=5)
     chk.rule("C17.c", "FWD recorder plumbing: register_* use the enhanced key else the original; describe_* forward unchanged; Allowlist decides on label.key()", floor=11)
     chk.trust("tracing_subscriber span registry (parent links, extensions)", "IndexMap::{insert,entry,retain,extend}", "itoa::Buffer::format")
@@ -35,25 +38,33 @@ def run(ctx):
     else:
         f = ons[0]
         b = f.body
-        ext = [c for c in nonforeign_calls(f) if c.is_("Labels::extend_from_labels", "Labels::extend_from_labels_overwrite")]
+        from props.common import iteration_context
+
+        MUT = ("entry", "or_insert_with", "or_insert", "insert", "or_default", "extend", "insert_full", "or_insert_with_key")
+        muts = [c for c in nonforeign_calls(f) if "indexmap" in (c.resolved or "") and callee_method_name(c) in MUT]
         par = [c for c in nonforeign_calls(f) if c.is_("SpanRef<'a, R>::parent", "parent")]
         spn = [c for c in nonforeign_calls(f) if c.is_("Context<'a, S>::span", "span") and "Context" in (c.resolved or "")]
-        ok = len(ext) == 1 and ext[0].is_("Labels::extend_from_labels") and not ext[0].is_("Labels::extend_from_labels_overwrite")
-        chk.ob("C17.a", f"{f.path} [parent merge is non-overwriting]", ok, "child fields win over inherited ones (extend_from_labels)" if ok else "on_new_span merges the parent's labels with the overwriting extension: an outer span's field would beat the inner span's", f.loc())
-        okp = len(ext) == 1 and len(par) == 1 and len(spn) >= 1
+        names = {callee_method_name(c) for c in muts}
+        ok = bool(names) and names <= {"entry", "or_insert_with", "or_insert"} and "entry" in names
+        chk.ob("C17.a", f"{f.path} [parent merge is non-overwriting]", ok, "child fields win over inherited ones (inherited labels only through entry(k).or_insert..)" if ok else f"on_new_span merges the parent's labels with an overwriting operation ({sorted(names)}): an outer span's field would beat the inner span's", f.loc())
+        okp = bool(muts) and len(par) == 1 and len(spn) >= 1
         detail = ""
         if okp:
-            a = arg_syms(ext[0])
-            src = a[1]
-            # parent labels come from parent.extensions().get::<Labels>() with parent = span.parent(), span = cx.span(id)
-            okp = any(isinstance(x, tuple) and x and x[0] == "call" and sym_is_call(x, "parent") and "SpanRef" in str(x[1]) for x in sym_walk(src))
+            # every inherited entry is visited: the merging operation runs once per element of the parent's label map,
+            # and that map is found in the extensions of cx.span(id).parent()
+            m0 = [c for c in muts if callee_method_name(c) == "entry"][0]
+            src, why = iteration_context(m0)
+            okp = src is not None and any(isinstance(x, tuple) and x and x[0] == "call" and sym_is_call(x, "parent") and "SpanRef" in str(x[1]) for x in sym_walk(src))
+            detail = why or "the merged map is not the parent's"
             pr = strip_sym(arg_syms(par[0])[0])
             okp = okp and sym_is_call(sym_through(pr, "Option<T>::expect", "Option<T>::unwrap"), "span") and is_param(strip_sym(sym_through(pr, "Option<T>::expect", "Option<T>::unwrap"))[2][1], 2)
-            own = strip_sym(a[0])
-            okp = okp and "from_record" in sym_str(own)
+            from props.common import actual_of
+
+            dst = actual_of(m0.fn, Sym(m0.fn).operand(m0.args[0]))
+            okp = okp and "from_record" in sym_str(dst)
         else:
             detail = f"parent lookups: {[callee_method_name(c) for c in nonforeign_calls(f) if 'parent' in callee_method_name(c) or 'lookup' in callee_method_name(c) or 'current' in callee_method_name(c)]}"
-        chk.ob("C17.a", f"{f.path} [inherits from the registered parent]", okp, "inherited labels = extensions of cx.span(id).parent()" if okp else f"inherited labels do not come from the new span's registered parent ({detail}): with explicit parents (span!(parent: ..)) the thread's current span is a different span", f.loc())
+        chk.ob("C17.a", f"{f.path} [inherits from the registered parent]", okp, "every label of cx.span(id).parent()'s extensions is offered to the new span's own labels" if okp else f"inherited labels do not come (all) from the new span's registered parent ({detail}): with explicit parents (span!(parent: ..)) the thread's current span is a different span", f.loc())
         ins = [c for c in nonforeign_calls(f) if c.is_("ExtensionsMut<'a>::insert", "insert") and "Extensions" in (c.resolved or "")]
         fr = [c for c in nonforeign_calls(f) if c.is_("Labels::from_record")]
         oki = len(ins) == 1 and len(fr) == 1 and "attrs" in sym_str(arg_syms(fr[0])[0]).lower() or (len(ins) == 1 and len(fr) == 1 and is_param(_root_arg(arg_syms(fr[0])[0]), 1))
@@ -61,29 +72,21 @@ def run(ctx):
     onr = [f for f in t.fns if f.name == "on_record" and f.j.get("impl_self", "").endswith("MetricsLayer")]
     if len(onr) == 1:
         f = onr[0]
-        ext = [c for c in nonforeign_calls(f) if c.is_("Labels::extend_from_labels", "Labels::extend_from_labels_overwrite")]
-        ok = len(ext) == 1 and ext[0].is_("Labels::extend_from_labels_overwrite")
+        from props.common import iteration_context
+
+        MUT = ("entry", "or_insert_with", "or_insert", "insert", "or_default", "extend", "insert_full", "or_insert_with_key")
+        muts = [c for c in nonforeign_calls(f) if "indexmap" in (c.resolved or "") and callee_method_name(c) in MUT]
+        names = {callee_method_name(c) for c in muts}
+        ok = names == {"insert"} and len(muts) == 1
         if ok:
-            a = arg_syms(ext[0])
-            ok = "get_mut" in sym_str(a[0]) and "from_record" in sym_str(a[1])
-        chk.ob("C17.a", f"{f.path} [later record overwrites]", ok, "existing.extend_from_labels_overwrite(new values)" if ok else "a later record() does not replace the span's earlier value", f.loc())
+            src, why = iteration_context(muts[0])
+            from props.common import actual_of
+
+            dst = actual_of(muts[0].fn, Sym(muts[0].fn).operand(muts[0].args[0]))
+            ok = src is not None and "from_record" in sym_str(src) and "get_mut" in sym_str(dst)
+        chk.ob("C17.a", f"{f.path} [later record overwrites]", ok, "every newly recorded value is insert()ed over the span's existing labels" if ok else f"a later record() does not replace the span's earlier value (map operations {sorted(names)})", f.loc())
     else:
         chk.unrecognised("C17.a", "<anchor> MetricsLayer::on_record", f"found {len(onr)}")
-    for fname, want_calls, what in (("extend_from_labels", {"entry", "or_insert_with"}, "entry(k).or_insert_with(v) (keeps existing)"), ("extend_from_labels_overwrite", {"insert"}, "insert(k, v) (replaces)")):
-        f = one_method(chk, "C17.a", t, LB, fname)
-        if not f:
-            continue
-        names = {n for n in region_callnames(f) if n in ("entry", "or_insert_with", "or_insert", "insert", "or_default", "remove", "swap_remove")}
-        outer = [c for c in nonforeign_calls(f) if c.fn is f and c.is_("Labels::extend")]
-        ok = names == want_calls and len(outer) == 1 and is_param(arg_syms(outer[0])[0], 0) and is_param(arg_syms(outer[0])[1], 1)
-        chk.ob("C17.a", f.path, ok, f"{fname} = extend(other, {what})" if ok else f"{fname} uses {sorted(names)}, expected {sorted(want_calls)}", f.loc())
-    exf = one_method(chk, "C17.a", t, LB, "extend")
-    if exf:
-        b = exf.body
-        it = [c for c in nonforeign_calls(exf) if c.fn is exf and c.is_("IntoIterator::into_iter")]
-        fc = [c for c in nonforeign_calls(exf) if c.fn is exf and c.is_("Fn::call", "FnMut::call_mut") and is_param(sym_through(arg_syms(c)[0]), 2)]
-        ok = len(it) == 1 and len(fc) == 1 and in_cycle(b, fc[0].bb) and is_param(_root_arg(arg_syms(it[0])[0]), 1)
-        chk.ob("C17.a", exf.path, ok, "extend calls f(map, k, v) for every entry of the other map" if ok else "extend does not visit every entry of the other map", exf.loc())
     for mn, ty in (("record_str", None), ("record_bool", None), ("record_i64", "i64"), ("record_u64", "u64"), ("record_debug", None)):
         fs = [f for f in t.fns if f.name == mn and f.j.get("impl_self", "").endswith("Labels") and (f.j.get("impl_trait") or "").endswith("Visit")]
         if len(fs) != 1:
@@ -99,7 +102,10 @@ def run(ctx):
             ok = any(isinstance(x, tuple) and x and x[0] == "call" and sym_is_call(x, "Field::name") and is_param(strip_sym(x[2][0]), 1) for x in sym_walk(a[1]))
             if ty:
                 fm = [c for c in nonforeign_calls(f) if "Buffer::format" in (c.resolved or "")]
-                ok = ok and len(fm) == 1 and ty in (fm[0].t.get("gargs") or []) and is_param(arg_syms(fm[0])[1], 2)
+                ga = [g for g in (fm[0].t.get("gargs") or []) if isinstance(g, str)] if fm else []
+                concrete = [g for g in ga if g in ("i8", "i16", "i32", "i64", "i128", "isize", "u8", "u16", "u32", "u64", "u128", "usize")]
+                # the value reaches the formatter unchanged (no cast), at its own type or through a generic helper
+                ok = ok and len(fm) == 1 and (ty in ga or not concrete) and is_param(arg_syms(fm[0])[1], 2)
                 detail = f"formatted as {fm[0].t.get('gargs') if fm else None}"
         chk.ob("C17.a", f.path, ok, f"{mn}: insert(field.name(), value{' formatted as ' + ty if ty else ''})" if ok else f"{mn} does not insert the value under field.name() formatted at its own type ({detail}): e.g. a u64 above i64::MAX would be rendered negative", f.loc())
 
@@ -123,18 +129,32 @@ def run(ctx):
             ok = okl and okf and okn
             detail = f"filter is given {sym_str(lab)[:100]}"
         chk.ob("C17.b", f"{ek.path} [filter sees the real label]", ok, "should_include_label(name, Label::new(span key, span value)) for every span label" if ok else f"the label filter is not shown the span label's real name and value ({detail}): filters that decide on the value admit/reject the wrong fields", ek.loc())
-        ok2 = len(ret) == 1 and len(ext) == 1 and ret[0].body.dominates(ret[0].bb, ext[0].bb) and ret[0].bb != ext[0].bb
+        own = []
+        if len(ret) == 1:
+            rf = ret[0].fn
+            for c in nonforeign_calls(rf):
+                if c.fn is rf and "indexmap" in (c.resolved or "") and callee_method_name(c) in ("extend", "insert"):
+                    if any("into_parts" in sym_str(Sym(rf).operand(x)) for x in c.args[1:]):
+                        own.append(c)
+        ok2 = len(ret) == 1 and len(own) == 1 and ret[0].body.dominates(ret[0].bb, own[0].bb) and ret[0].bb != own[0].bb
         if ok2:
-            a = [Sym(ext[0].fn).operand(x) for x in ext[0].args]
-            same_map = repr(strip_sym(a[0])) == repr(strip_sym(Sym(ret[0].fn).operand(ret[0].args[0])))
-            src = sym_str(a[1])
-            ok2 = same_map and "into_parts" in src and "map(" in src
+            same_map = repr(_root_arg(Sym(own[0].fn).operand(own[0].args[0]))) == repr(_root_arg(Sym(ret[0].fn).operand(ret[0].args[0])))
+            ok2 = same_map
         chk.ob("C17.b", f"{ek.path} [metric labels after the filter]", ok2, "span labels are filtered first; the metric's own labels are inserted afterwards and overwrite" if ok2 else "the metric's own labels are inserted before filtering (they would be filtered / overwritten by span fields)", ek.loc())
         kp = [c for c in calls if c.is_("Key::from_parts")]
         ok3 = len(kp) == 1 and "collect" in sym_str(Sym(kp[0].fn).operand(kp[0].args[1])) and "into_iter" in sym_str(Sym(kp[0].fn).operand(kp[0].args[1]))
+        if not ok3 and len(kp) == 1:
+            # spelled as a loop: for (k, v) in map { vec.push(Label::new(k, v)) }
+            from props.common import iteration_context
+
+            for c in nonforeign_calls(kp[0].fn):
+                if c.fn is kp[0].fn and c.is_("Vec<T, A>::push") and sym_is_call(Sym(c.fn).operand(c.args[1]), "Label::new"):
+                    src, _w = iteration_context(c)
+                    if src is not None and len(ret) == 1 and repr(_root_arg(src)) == repr(_root_arg(Sym(ret[0].fn).operand(ret[0].args[0]))):
+                        ok3 = True
         chk.ob("C17.b", f"{ek.path} [key rebuilt from the map]", ok3, "Key::from_parts(name, labels collected from the map) — names are unique by construction" if ok3 else "the enhanced key is not rebuilt from the merged map", ek.loc())
         names = region_callnames(ek)
-        ok4 = "current_span" in names and "downcast_ref" in names and "is_empty" in names and ("then" in names or "then_some" in names) and names.count("id") >= 1
+        ok4 = "current_span" in names and "downcast_ref" in names and "is_empty" in names and names.count("id") >= 1
         chk.ob("C17.b", f"{ek.path} [None cases]", ok4, "None without a current span id, without the MetricsLayer, or with no span labels" if ok4 else "enhance_key lost one of its None cases (no span / no layer / no labels)", ek.loc(), nontrivial=False)
         wl = [c for c in calls if c.is_("MetricsLayer::with_labels")]
         ok5 = len(wl) == 1 and "id" in sym_str(Sym(wl[0].fn).operand(wl[0].args[2]))
